@@ -153,6 +153,15 @@ def write_replay(prop, unit, o, ur, witness=None):
 
 def find_witness(prop, pcfg, o, seed):
     """try to turn a failed obligation into a concrete failing input on the real code"""
+    ce = pcfg.get('counterexample_engine')
+    if ce and re.search(ce['for'], o.name):
+        try:
+            from . import engines
+            r = engines.run_kani(ce, prop, 'thorough', seed)
+            for f in r.get('failed', []):
+                if f.get('witness'): return f['witness']
+        except Exception as e:  # the counterexample search decides nothing
+            print('  (counterexample search failed: %s)' % str(e)[:200])
     w = pcfg.get('witness')
     if not w: return None
     try:
